@@ -50,6 +50,19 @@
 #define RELY(o, n) RELY_STARTUP(o, n)
 #define OTHER_VALID(n) ((n) == runtime_state_initialized || (n) == runtime_state_running)
 #define STEP_HOOK(o, n) do { } while (0)
+#elif defined(U_TF_EXIT)
+/* worker, after its scheduling loop has ended: no further write of its own.  The loop's final step (stub, contract of
+ * more.loop_tail) is the only step.  Rely: nobody moves a word that is `stopped` while its thread still exists, and
+ * `terminating` stays; -DEXPERIMENT_O2_BOUNCE adds the transient lowering terminating -> stopping of observation O2. */
+#define GUAR(o, n) GUAR_DOWN(o, n)
+#ifdef EXPERIMENT_O2_BOUNCE
+#define RELY(o, n) ((n) == (o) || ((o) == S_TERM && (n) == S_STOPPING) || ((o) == S_STOPPING && (n) == S_TERM))
+#else
+#define RELY(o, n) RELY_NONE(o, n)
+#endif
+#define STEP_HOOK(o, n) do { } while (0)
+/* a worker other than the victim: abstract word; the loop's contract holds for it as well */
+#define OTHER_VALID(n) ((n) == runtime_state_stopped || (n) == runtime_state_terminating)
 #elif defined(U_STOP_LOCKED)
 #define GUAR(o, n) GUAR_STOPREQ(o, n)
 #define RELY(o, n) RELY_LIVE(o, n)
@@ -284,6 +297,45 @@ __CPROVER_assigns(M_FRAME)
 }
 #endif
 
+#ifdef U_TF_EXIT
+static long g_loop_calls;
+static int g_exit_kind;                 /* 1: the loop ended with its final store, 2: it ended on a terminate request */
+static size_t g_loop_arg;
+/* scheduling_loop(thread_num, ...) -- CONTRACT stub (units more.loop_top / more.loop_sleep / more.loop_tail): the loop ends
+ * only (1) right after the worker's final step stopping | terminating -> stopped, or (2) after it has read `terminating`
+ * from its word, which it leaves as it is */
+static void scheduling_loop_stub(struct pool *self, size_t num_thread)
+{
+  if (g_loop_calls < 2) g_loop_calls++;
+  g_loop_arg = num_thread;
+  if (num_thread != g_v) return;
+  if (nondet_bool())
+  {
+    runtime_state_t o = nondet_i8();
+    VX_ASSUME(o == S_STOPPING || o == S_TERM); /* postcondition of more.loop_tail: the final step starts from stopping | terminating */
+    vx_step(o, S_STOPPED);
+    g_v_state = S_STOPPED;
+    g_exit_kind = 1;
+  }
+  else { g_v_state = S_TERM; g_exit_kind = 2; }
+}
+static int64_t sched_get_thread_count3(struct scheduler *s, int state, int priority, size_t num_thread) { int64_t r = nondet_i64(); VX_ASSUME(r >= 0); /* a count */ return r; }
+static int64_t sched_get_queue_length(struct scheduler *s, size_t num_thread) { int64_t r = nondet_i64(); VX_ASSUME(r >= 0); /* a length */ return r; }
+enum { thread_schedule_state_suspended = 3, thread_priority_default = 0 };
+//@FUNC
+void thread_func_exit(struct pool *self, size_t thread_num, size_t global_thread_num)
+__CPROVER_requires(M_PRE_COMMON(self) && thread_num < self->sched_->n && global_thread_num < self->sched_->n && g_loop_calls == 0 && g_exit_kind == 0)
+/* the loop is run once, for this worker; after it the worker only looks at its word (the PIKA_ASSERT, an obligation
+ * here) and never writes it again: the final store inside the loop was its last step */
+__CPROVER_ensures(g_loop_calls == 1 && g_loop_arg == thread_num)
+__CPROVER_ensures(thread_num == g_v ==> (lin_count == (g_exit_kind == 1 ? 1 : 0) && g_stutters == 0))
+__CPROVER_ensures(thread_num != g_v ==> lin_count == 0)
+__CPROVER_assigns(M_FRAME, g_loop_calls, g_exit_kind, g_loop_arg)
+{
+//@LIFT body
+}
+#endif
+
 #ifdef U_STOP_LOCKED
 //@FUNC
 void stop_locked(struct pool *self, struct tmlock *l, bool blocking)
@@ -393,6 +445,13 @@ void harness(void)
   thread_func_startup(&p, core, tnum);
   if (core == g_v && lin_count == 1) VX_REACH("came_up_from_initialized");
   if (core == g_v && g_stutters == 1) VX_REACH("starter_was_faster");
+  if (core != g_v) VX_REACH("other_worker");
+#endif
+#ifdef U_TF_EXIT
+  g_loop_calls = 0; g_exit_kind = 0;
+  thread_func_exit(&p, core, tnum);
+  if (core == g_v && g_exit_kind == 1) VX_REACH("ended_stopped");
+  if (core == g_v && g_exit_kind == 2) VX_REACH("ended_on_terminate_request");
   if (core != g_v) VX_REACH("other_worker");
 #endif
 #ifdef U_STOP_LOCKED
